@@ -8,6 +8,7 @@ from abc import ABC
 from abc import abstractmethod
 from typing import TYPE_CHECKING
 from typing import Any
+from typing import AsyncIterable
 from typing import Callable
 from typing import Generic
 from typing import Iterable
@@ -27,6 +28,7 @@ from .selectors import ListSelector
 from .serialize import canonical_string
 
 if TYPE_CHECKING:
+    from .match import JSONPathMatch
     from .path import JSONPath
     from .selectors import FilterContext
 
@@ -522,6 +524,45 @@ class Path(FilterExpression, ABC):
         return
 
 
+def _filter_query_root(
+    path: JSONPath, obj: object, context: FilterContext
+) -> JSONPathMatch:
+    """The root match for a query embedded in a filter expression.
+
+    Unlike `JSONPath.finditer()`, keep the outer query's root value and
+    filter context, so `$` and `_` mean the same thing at every nesting depth.
+    """
+    return context.env.match_class(
+        filter_context=context.extra_context,
+        obj=[obj] if path.fake_root else obj,
+        parent=None,
+        path=context.env.root_token,
+        parts=(),
+        root=context.root,
+    )
+
+
+def _resolve_filter_query(
+    path: JSONPath, obj: object, context: FilterContext
+) -> NodeList:
+    matches: Iterable[JSONPathMatch] = [_filter_query_root(path, obj, context)]
+    for selector in path.selectors:
+        matches = selector.resolve(matches)
+    return NodeList(matches)
+
+
+async def _resolve_filter_query_async(
+    path: JSONPath, obj: object, context: FilterContext
+) -> NodeList:
+    async def root_iter() -> AsyncIterable[JSONPathMatch]:
+        yield _filter_query_root(path, obj, context)
+
+    matches: AsyncIterable[JSONPathMatch] = root_iter()
+    for selector in path.selectors:
+        matches = selector.resolve_async(matches)
+    return NodeList([match async for match in matches])
+
+
 class SelfPath(Path):
     """A JSONPath starting at the current node."""
 
@@ -555,7 +596,7 @@ class SelfPath(Path):
                 )
             return NodeList()
 
-        return NodeList(self.path.finditer(context.current))
+        return _resolve_filter_query(self.path, context.current, context)
 
     async def evaluate_async(self, context: FilterContext) -> object:
         if isinstance(context.current, str) or not isinstance(
@@ -563,9 +604,7 @@ class SelfPath(Path):
         ):
             return self.evaluate(context)
 
-        return NodeList(
-            [match async for match in await self.path.finditer_async(context.current)]
-        )
+        return await _resolve_filter_query_async(self.path, context.current, context)
 
 
 class RootPath(Path):
@@ -583,12 +622,10 @@ class RootPath(Path):
         return str(self.path)
 
     def evaluate(self, context: FilterContext) -> object:
-        return NodeList(self.path.finditer(context.root))
+        return _resolve_filter_query(self.path, context.root, context)
 
     async def evaluate_async(self, context: FilterContext) -> object:
-        return NodeList(
-            [match async for match in await self.path.finditer_async(context.root)]
-        )
+        return await _resolve_filter_query_async(self.path, context.root, context)
 
 
 class FilterContextPath(Path):
@@ -607,14 +644,11 @@ class FilterContextPath(Path):
         return "_" + path_repr[1:]
 
     def evaluate(self, context: FilterContext) -> object:
-        return NodeList(self.path.finditer(context.extra_context))
+        return _resolve_filter_query(self.path, context.extra_context, context)
 
     async def evaluate_async(self, context: FilterContext) -> object:
-        return NodeList(
-            [
-                match
-                async for match in await self.path.finditer_async(context.extra_context)
-            ]
+        return await _resolve_filter_query_async(
+            self.path, context.extra_context, context
         )
 
 
